@@ -517,6 +517,18 @@ class TBRMatchedMarkets:
       the set of feasible designs found given the design parameters,
         with their corresponding treatment/control groups and score.
     """
+    # The search fills in unspecified group size ranges for its own use. The
+    # parameter object belongs to the caller, so restore it afterwards.
+    specified_ranges = (self.parameters.treatment_geos_range,
+                        self.parameters.control_geos_range)
+    try:
+      return self._greedy_search()
+    finally:
+      (self.parameters.treatment_geos_range,
+       self.parameters.control_geos_range) = specified_ranges
+
+  def _greedy_search(self):
+    """Implementation of greedy_search()."""
     budget_range = self.parameters.budget_range
     results = heapdict.HeapDict(size=self.parameters.n_designs)
 
